@@ -229,6 +229,29 @@ type outcome struct {
 	RenterCost  types.Currency
 }
 
+// known returns the ids of all matured outputs the wallet's store holds (reserved or not).
+func (n *walletNode) known() map[types.SiacoinOutputID]bool {
+	tip, utxos, err := n.ws.UnspentSiacoinElements()
+	must(err)
+	m := map[types.SiacoinOutputID]bool{}
+	for _, u := range utxos {
+		if u.MaturityHeight <= tip.Height { // (immature payouts are not reservations either)
+			m[u.ID] = true
+		}
+	}
+	return m
+}
+
+func onlyKnown(av []availOut, known map[types.SiacoinOutputID]bool) []availOut {
+	var r []availOut
+	for _, a := range av {
+		if a.Unconf || known[a.ID] {
+			r = append(r, a)
+		}
+	}
+	return r
+}
+
 func bal(n *walletNode) balances {
 	b, err := n.w.Balance()
 	must(err)
@@ -452,6 +475,7 @@ func (w *world) run(s script) *outcome {
 	}
 	o.HostBefore, o.RenterBefore = w.H.avail(), rn.avail()
 	o.HostBal0, o.RenterBal0 = bal(w.H), bal(rn)
+	hostKnown, renterKnown := w.H.known(), rn.known()
 	w.log.reset()
 	n0 := w.trk.count()
 
@@ -493,6 +517,12 @@ func (w *world) run(s script) *outcome {
 	}
 	o.HostAfter, o.RenterAfter = w.H.avail(), rn.avail()
 	o.HostBal1, o.RenterBal1 = bal(w.H), bal(rn)
+	if s.Mid != "" {
+		// blocks were mined meanwhile: outputs the wallets did not own before (matured or
+		// newly confirmed ones) are no reservations given back, and balances moved
+		o.HostAfter, o.RenterAfter = onlyKnown(o.HostAfter, hostKnown), onlyKnown(o.RenterAfter, renterKnown)
+		o.HostBal1, o.RenterBal1 = o.HostBal0, o.RenterBal0
+	}
 	if o.Held != nil {
 		o.Held.finish()
 		if !w.trk.waitIdle(0) {
